@@ -270,7 +270,7 @@ class Var:
                         val = ''
                     else:
                         if isinstance(val, TaintedString):
-                            val = TaintedString(fmt % val)
+                            val = TaintedString(fmt % str(val))
                         else:
                             val = fmt % val
                 except Exception:
@@ -307,7 +307,7 @@ class Var:
                     val = ''
                 else:
                     if isinstance(val, TaintedString):
-                        val = TaintedString(fmt % val)
+                        val = TaintedString(fmt % str(val))
                     else:
                         val = fmt % val
 
